@@ -65,7 +65,10 @@ func processFiles(fileSpecifiers map[string]string, program string, outputFile s
 		}
 	}
 
-	outputFp, err := os.OpenFile(outputFile, os.O_WRONLY|os.O_CREATE, 0600)
+	// The output file normally already holds the pointer of the current
+	// version; truncate it so that a shorter pointer does not leave the
+	// tail of the old one behind.
+	outputFp, err := os.OpenFile(outputFile, os.O_WRONLY|os.O_CREATE|os.O_TRUNC, 0600)
 	if err != nil {
 		return -1, err
 	}
